@@ -67,7 +67,12 @@ def run_job(job):
                 bad.append('checked variant can panic: %s' % show_outcome(o))
                 continue
             term = (o.info or {}).get('term')
-            if o.value != 'overflow' or term is None or pfreeze(s.norm(dict(term))) not in permitted:
+            if o.value == 'DecimalError::InternalOverflow':
+                # explicit overflow signal: must be caused by the overflow of a permitted form
+                ov = notes_of(o, 'overflows')
+                if not ov or any(pfreeze(s.norm(dict(n[1]))) not in permitted for n in ov):
+                    bad.append('InternalOverflow without overflow of a permitted form (notes %s)' % ([show_poly(s, dict(n[1])) for n in ov],))
+            elif o.value != 'overflow' or term is None or pfreeze(s.norm(dict(term))) not in permitted:
                 bad.append('panic that is not the overflow of a permitted form: %s' % show_outcome(o))
             continue
         v = o.value
